@@ -120,6 +120,25 @@ func enumerate(thorough bool) (sp spaces, extra map[string]any) {
 			nse++
 		}
 	}
+	if thorough {
+		// a deadline that never fires must change nothing: the whole product once more under it
+		n := len(sp.cheap)
+		for i := 0; i < n; i++ {
+			c := sp.cheap[i]
+			c.Ctx = cFar
+			sp.cheap = append(sp.cheap, c)
+		}
+		// the large request the plugin never reads, against every exit x stderr kind
+		for _, cmd := range commands {
+			for _, ex := range exs {
+				for _, se := range ses {
+					if !se.Pad {
+						sp.cheap = append(sp.cheap, Case{Cmd: cmd, Exit: ex, Stdout: "valid", Stderr: se.Name, Timing: tImmediate, Ctx: cBackground, Req: "large"})
+					}
+				}
+			}
+		}
+	}
 	// 1b. deterministic contexts and the large (never read) request, crossed with representatives
 	for _, cmd := range commands {
 		for _, ex := range []string{"0", "1"} {
@@ -401,7 +420,7 @@ func main() {
 
 	r.Extra["phase_cheap_product_s(informational)"] = time.Since(t0).Seconds()
 	t0 = time.Now()
-	limitedParallel(6, sp.big, func(c Case) {
+	limitedParallel(8, sp.big, func(c Case) {
 		defer onPanic(c)()
 		d.record(c, d.run(c), false)
 	})
